@@ -78,6 +78,17 @@ pub enum Dirty {
   CallInTemplateFirstSlot,
   CallInConditional,
   NewInArray,
+  /// class members: auto-accessor / getter / setter / constructor parameter / parameter property / static
+  /// property that need inference, and a super class that is not an entity name
+  UntypedAutoAccessor,
+  GetterMissingReturn,
+  SetterUntypedParam,
+  CtorUntypedParam,
+  ParamPropertyNeedsInference,
+  UntypedStaticProp,
+  SuperClassExpr,
+  /// parameter default that is not leavable and has no annotation
+  DefaultParamNeedsInference,
 }
 
 #[derive(Clone, Debug, PartialEq, Eq, Hash)]
@@ -342,9 +353,32 @@ pub fn gen_pkg(rng: &mut Rng, name: &str, n_files: usize, dirty: bool) -> Pkg {
       let (f, d) = *rng.pick(&cands);
       let k = pkg.files[f].decls[d].kind;
       pkg.files[f].decls[d].dirty = Some(match k {
-        DK::Function => *rng.pick(&[Dirty::MissingReturnType, Dirty::UntypedParam, Dirty::DestructuredParam, Dirty::UntypedRestParam]),
-        DK::Class => *rng.pick(&[Dirty::UntypedClassProp, Dirty::MissingMethodReturn, Dirty::MethodOverloadUntypedParam]),
-        DK::AbstractClass => *rng.pick(&[Dirty::AbstractMethodUntypedParam, Dirty::MethodOverloadUntypedParam, Dirty::MissingMethodReturn]),
+        DK::Function => *rng.pick(&[
+          Dirty::MissingReturnType,
+          Dirty::UntypedParam,
+          Dirty::DestructuredParam,
+          Dirty::UntypedRestParam,
+          Dirty::DefaultParamNeedsInference,
+        ]),
+        DK::Class => *rng.pick(&[
+          Dirty::UntypedClassProp,
+          Dirty::MissingMethodReturn,
+          Dirty::MethodOverloadUntypedParam,
+          Dirty::UntypedAutoAccessor,
+          Dirty::GetterMissingReturn,
+          Dirty::SetterUntypedParam,
+          Dirty::CtorUntypedParam,
+          Dirty::ParamPropertyNeedsInference,
+          Dirty::UntypedStaticProp,
+          Dirty::SuperClassExpr,
+        ]),
+        DK::AbstractClass => *rng.pick(&[
+          Dirty::AbstractMethodUntypedParam,
+          Dirty::MethodOverloadUntypedParam,
+          Dirty::MissingMethodReturn,
+          Dirty::GetterMissingReturn,
+          Dirty::UntypedStaticProp,
+        ]),
         DK::OverloadedFunction => Dirty::OverloadUntypedParam,
         DK::TypedConst => Dirty::UntypedConstCall,
         DK::CompositeConst => *rng.pick(&[
@@ -680,6 +714,7 @@ pub fn render_file(p: &Pkg, f: usize) -> String {
         let p1 = match d.dirty {
           Some(Dirty::UntypedParam) => "a".to_string(),
           Some(Dirty::DestructuredParam) => "{ a, b }".to_string(),
+          Some(Dirty::DefaultParamNeedsInference) => "a = compute(0)".to_string(),
           // an unannotated parameter whose type is inferred from `expr as T`,
           // followed by a required one (its default must not survive)
           _ if v % 11 == 3 => format!("a = compute(0) as {}, a2: {}", t(1), t(1)),
@@ -748,14 +783,26 @@ pub fn render_file(p: &Pkg, f: usize) -> String {
           d.name.as_str(),
           generics
         );
-        if let Some(pn) = &parent {
+        if d.dirty == Some(Dirty::SuperClassExpr) {
+          s.push_str(&format!(" extends (compute(1) as typeof {})", parent.clone().unwrap_or_else(|| "Object".to_string())));
+        } else if let Some(pn) = &parent {
           s.push_str(&format!(" extends {}", pn));
         }
         if v % 3 == 0 {
           s.push_str(" implements Disposable");
         }
         s.push_str(" {\n");
-        s.push_str(&format!("  static count: number = {};\n", v % 10));
+        if d.dirty == Some(Dirty::UntypedStaticProp) {
+          s.push_str("  static count = compute(0);\n");
+        } else {
+          s.push_str(&format!("  static count: number = {};\n", v % 10));
+        }
+        match d.dirty {
+          Some(Dirty::UntypedAutoAccessor) => s.push_str("  accessor bad = compute(1);\n"),
+          Some(Dirty::GetterMissingReturn) => s.push_str("  get bad() {\n    return compute(1);\n  }\n"),
+          Some(Dirty::SetterUntypedParam) => s.push_str("  set bad(value) {\n    compute(1);\n  }\n"),
+          _ => {}
+        }
         s.push_str(&format!("  readonly first: {} = undefined as any;\n", t(0)));
         match d.dirty {
           Some(Dirty::UntypedClassProp) => s.push_str("  second = compute(1);\n"),
@@ -773,7 +820,15 @@ pub fn render_file(p: &Pkg, f: usize) -> String {
         if v % 3 == 1 {
           s.push_str(&format!("  static {{\n    {}.count = compute(3) as number;\n  }}\n", d.name));
         }
-        if v % 2 == 0 {
+        let has_super = parent.is_some() || d.dirty == Some(Dirty::SuperClassExpr);
+        if d.dirty == Some(Dirty::CtorUntypedParam) {
+          s.push_str(&format!("  constructor(bad) {{\n    {}\n  }}\n", if has_super { "super(undefined as any, 1);" } else { "" }));
+        } else if d.dirty == Some(Dirty::ParamPropertyNeedsInference) {
+          s.push_str(&format!(
+            "  constructor(public bad = compute(1)) {{\n    {}\n  }}\n",
+            if has_super { "super(undefined as any, 1);" } else { "" }
+          ));
+        } else if v % 2 == 0 {
           s.push_str(&format!(
             "  constructor(public param: {}, private other: number = 1, third?: {}, public level: number | string = 1, readonly tag: \"a\" | \"b\" = \"a\") {{\n    {}\n{}  }}\n",
             t(2),
